@@ -16,11 +16,11 @@ import (
 type shCtxKind int
 
 const (
-	ctxCmd    shCtxKind = iota // command level: top of line or inside $( )
-	ctxDQ                      // "..."
-	ctxSQ                      // '...'
-	ctxArith                   // $(( ))
-	ctxParam                   // ${ }
+	ctxCmd   shCtxKind = iota // command level: top of line or inside $( )
+	ctxDQ                     // "..."
+	ctxSQ                     // '...'
+	ctxArith                  // $(( ))
+	ctxParam                  // ${ }
 	ctxBacktick
 )
 
@@ -31,12 +31,12 @@ func (k shCtxKind) String() string {
 type shFrame struct {
 	kind shCtxKind
 	// command-level bookkeeping
-	words     int    // completed words since command start
-	cmd       string // command word ("" until known)
-	cmdDone   bool
-	cur       strings.Builder // literal text of current word ("\x00" for holes)
-	inWord    bool
-	wordStart bool // nothing but an opening quote consumed in this word so far
+	words      int    // completed words since command start
+	cmd        string // command word ("" until known)
+	cmdDone    bool
+	cur        strings.Builder // literal text of current word ("\x00" for holes)
+	inWord     bool
+	wordStart  bool // nothing but an opening quote consumed in this word so far
 	parenDepth int
 	expIdx     int // index+1 of the expansion record this ${ } frame belongs to
 	curCmd     *BashCmd
@@ -58,28 +58,28 @@ type HoleCtx struct {
 	InParam   bool // inside ${ }
 	AssignRHS bool // value part of NAME=value
 	InRep     bool
-	Numeric   bool // Num part rather than Hole
+	Numeric   bool   // Num part rather than Hole
 	Prefix    string // literal text of the word before the hole
 }
 
 // ExpCtx describes one parameter expansion ($x, ${x...}) written in literal text.
 type ExpCtx struct {
-	Name   string // "" when the name itself is computed
-	Quote  string
-	Stack  string
-	Cmd    string
-	InEval bool
+	Name    string // "" when the name itself is computed
+	Quote   string
+	Stack   string
+	Cmd     string
+	InEval  bool
 	InArith bool
-	Op     string // "#" for ${#x}, ":" for substring, "[" for subscript, "" plain
+	Op      string // "#" for ${#x}, ":" for substring, "[" for subscript, "" plain
 }
 
 // BashCmd is one simple command of a line: its words with quotes removed
 // (\x00 marks a hole, \x01 a number).
 type BashCmd struct {
-	Name  string
-	Words []string // arguments (without the command word)
-	Lead  string   // keyword directly before the command: if, then, else, elif, do, while ...
-	Depth int      // nesting depth of command substitutions
+	Name   string
+	Words  []string // arguments (without the command word)
+	Lead   string   // keyword directly before the command: if, then, else, elif, do, while ...
+	Depth  int      // nesting depth of command substitutions
 	Redirs []string
 }
 
@@ -88,8 +88,8 @@ type BashLine struct {
 	Cmds     []*BashCmd
 	Exps     []ExpCtx
 	Holes    []HoleCtx
-	Closed   bool   // all quotes/substitutions closed at end of line
-	Problem  string // why not closed / what could not be scanned
+	Closed   bool     // all quotes/substitutions closed at end of line
+	Problem  string   // why not closed / what could not be scanned
 	Mids     []string // else / elif seen at command start
 	Opens    []string // block keywords opened: if, while, for, {, case
 	Closes   []string
@@ -98,10 +98,10 @@ type BashLine struct {
 }
 
 type bashScanner struct {
-	stack  []*shFrame
-	out    *BashLine
-	inRep  bool
-	evalDepth int // >0 while inside the words of an eval command
+	stack      []*shFrame
+	out        *BashLine
+	inRep      bool
+	evalDepth  int // >0 while inside the words of an eval command
 	evalFrames map[*shFrame]bool
 }
 
